@@ -11,6 +11,22 @@ import re
 
 
 PROPS = {
+    "C08": {
+        "coq_targets": ["theories/VM/Safety.vo"],
+        "harness": ["c08"],
+        "tables": True,
+        "disagreement_is_violation": True,
+        "axioms": [],
+        "trusted_base": COMMON_TB + [
+            "VM/Machine.v as the model of the VM for the core instructions (tied to the real VM by the C01 correspondence) and WF/Verifier.v's certificate check (C15); VM/Safety.v's abstraction of the core instructions is compared with the harness's abstraction of the real list on every case",
+            "harness/src/c08.rs: the repertoire generator (27 built-in function forms, 12 statement forms, INPUT / LINE INPUT / READ / VIEW PRINT / PRINT USING, 30 argument shapes), the standard-input generator, classification of panics by message",
+            "NOT modelled: built-in functions and statements, procedures, arrays, files, console input - for them the property is searched, not proved",
+        ],
+        "assumptions": [
+            "programs that install an error handler and then fail in the middle of a statement are subject to the known finding C08-error-mid-statement",
+            "front-end panics (parser / checker) are C07's; files are C18's",
+        ],
+    },
     "C03": {
         "coq_targets": ["theories/RT/CtxProofs.vo"],
         "harness": ["c03"],
